@@ -3,6 +3,8 @@
 package etcdraft
 
 import (
+	"context"
+	"github.com/coreos/etcd/raft"
 	"os"
 	"github.com/coreos/etcd/snap"
 	"sync"
@@ -293,4 +295,65 @@ func ZZH_C20_catchup() {
 	}
 	zz.Assert("C20.catchup.reaches-target", n.lastExec == target && n.appliedIndex == 20 && n.snapshotIndex == 20)
 	zz.Cover("C20.catchup.retried", sy.calls >= 2)
+}
+
+// zzRaftNode is a raft.Node that produces nothing: the step checked is the node's own stop path.
+type zzRaftNode struct{ stopped int }
+
+func (r *zzRaftNode) Tick()                                                          {}
+func (r *zzRaftNode) Campaign(ctx context.Context) error                             { return nil }
+func (r *zzRaftNode) Propose(ctx context.Context, data []byte) error                 { return nil }
+func (r *zzRaftNode) ProposeConfChange(ctx context.Context, cc raftpb.ConfChange) error { return nil }
+func (r *zzRaftNode) Step(ctx context.Context, msg raftpb.Message) error             { return nil }
+func (r *zzRaftNode) Ready() <-chan raft.Ready                                       { return nil }
+func (r *zzRaftNode) Advance()                                                       {}
+func (r *zzRaftNode) ApplyConfChange(cc raftpb.ConfChange) *raftpb.ConfState         { return nil }
+func (r *zzRaftNode) TransferLeadership(ctx context.Context, lead, transferee uint64) {}
+func (r *zzRaftNode) ReadIndex(ctx context.Context, rctx []byte) error               { return nil }
+func (r *zzRaftNode) Status() raft.Status                                            { return raft.Status{} }
+func (r *zzRaftNode) ReportUnreachable(id uint64)                                    {}
+func (r *zzRaftNode) ReportSnapshot(id uint64, status raft.SnapshotStatus)           {}
+func (r *zzRaftNode) Stop()                                                          { r.stopped++ }
+
+// ZZH_C20_graceful_stop: as ZZH_C20_restart, but the first life ends with a graceful stop: the
+// node's context is cancelled and the real listenRaftMsg loop takes its stop branch (tickers never
+// fire, the raft node produces nothing). Entries that were delivered to the executor but not yet
+// executed when the node stopped are delivered again after the restart: every height is executed
+// exactly once over both lives, in order, and none is skipped.
+func ZZH_C20_graceful_stop() {
+	h := uint64(10)
+	base := uint64(100)
+	store := zz.NewStore()
+	n1, _ := zzNode(h, store)
+	n1.blockAppliedIndex.Store(h, n1.loadAppliedIndex())
+	ents := []raftpb.Entry{zzBatchEntry(base+1, h+1), zzBatchEntry(base+2, h+2), zzBatchEntry(base+3, h+3)}
+	p := zz.Choice("publishedInFirstLife", 4)
+	n1.publishEntries(ents[:p])
+	first := zzDrain(n1)
+	zz.Assert("C20.stop.first-life", len(first) == p)
+	c := zz.Choice("persistedByExecutor", p+1)
+	if zz.Choice("reported", 2) == 1 {
+		for k := 0; k < c; k++ {
+			n1.reportState(&mempool.ChainState{Height: h + 1 + uint64(k)})
+		}
+	}
+	rn := &zzRaftNode{}
+	n1.node = rn
+	n1.txCache = &mempool.TxCache{}
+	n1.batchTimerMgr = &BatchTimer{}
+	n1.tickTimeout, n1.checkInterval, n1.checkAlive = time.Second, time.Second, time.Second
+	n1.ctx, n1.cancel = context.WithCancel(context.Background())
+	_ = n1.ctx.Done() // (the done channel exists before the cancellation, as in a node that has been running)
+	n1.cancel()
+	n1.listenRaftMsg()
+	zz.Assert("C20.stop.raft-node-stopped", rn.stopped == 1)
+	// ---- restart ----
+	n2, _ := zzNode(h+uint64(c), store)
+	n2.blockAppliedIndex.Store(n2.lastExec, n2.loadAppliedIndex())
+	n2.publishEntries(ents)
+	second := zzDrain(n2)
+	zz.Assert("C20.stop.executes-the-rest", len(second) == 3-c)
+	for i := range second {
+		zz.Assert("C20.stop.in-order-by-one", second[i] == h+uint64(c)+uint64(i)+1)
+	}
 }
